@@ -1,4 +1,5 @@
 import Pog.Lemmas.Names
+import Pog.Props.ClientGen
 import Pog.Props.Loader
 import Pog.Props.Extract
 import Pog.Lemmas.Fresh
@@ -36,6 +37,14 @@ import Pog.Lemmas.Fresh
     ✗ post_process_*_name_collision        two responses of one operation are both renamed `{OpId}Response`
 -/
 -- INDEX Pog.LoaderProps: respPromoName_eq_iff, promotion_names_differ_unless_prefix, promotion_names_injective_same_operation, promotion_names_injective_partial, response_vs_body_promotion_names_disjoint, promotion_name_collision_arbitrary_keys, promotion_name_collision_same_response, promotion_name_collision_request_body, promotion_name_collision_parameters, promotion_name_collision_after_sanitize, post_process_response_name_collision_counterexample, post_process_request_name_collision_counterexample
+/-
+  C20, tag attribute names on APIClient (Pog/Model/ClientGen.lean; claimed from Pog/Props/ClientGen.lean):
+    property_names_valid_partial           valid non-keyword identifiers (and client.py compiles) when every tag has an ASCII alphanumeric
+    property_name_never_config             no property is ever named `config` (RESERVED_NAMES, regenerated table)
+    property_names_pairwise_distinct_partial   distinct for ASCII tags; ✗ `aé` / `a`
+    ✗ private_attr_base_url_counterexample (F64)   a tag with module `base_url` stores its client in `self._base_url`
+-/
+-- INDEX Pog.ClientGenProps: property_names_valid_partial, property_names_valid_counterexample, property_name_never_config, property_names_avoid_dunder_partial, property_named_base_url_counterexample, property_names_pairwise_distinct_partial, property_names_pairwise_distinct_counterexample, private_attr_names_distinct_from_public_partial, private_attr_base_url_counterexample, private_attr_base_url_iff, private_attr_counterexample
 namespace Pog.C20
 open Pog
 
